@@ -206,7 +206,7 @@ func C11(r *drv.Run) {
 		nrand = 300000
 	}
 	nl := len(c11Leaves())
-	r.Rule = fmt.Sprintf("exhaustive: every unary operator x %d leaves and every binary operator x %d x %d leaves", nl, nl, nl) + " (string/number/bool literals at boundary values '', '0', '7', '12', 'abc', '+3', ' 4', '010', '0x1F', '1_000', '1e3', '3.5', an overflowing digit string, the largest and smallest 64-bit integers as strings and as numbers, number literals beyond the signed 64-bit range (value 0), names differing from assigned variables and built-ins only in letter case (unassigned: the empty string), 0, 1, 2, -1, 7, 12, true, false, and variables bound by set and by a capture) that the documented table types; plus seeded random well-typed trees of depth <= 3, each rendered with minimal AND with full parentheses (precedence and associativity). Observation: a transform returning the expression (booleans through if/else) and a predicate returning it (match / no match). Oracle: evaluator transcribed from the documentation tables (harness/proc). Non-trivial = every expression whose observed value equalled the expected one is a distinct checked cell; distinct by expression text."
+	r.Rule = fmt.Sprintf("exhaustive: every unary operator x %d leaves and every binary operator x %d x %d leaves", nl, nl, nl) + " (string/number/bool literals at boundary values '', '0', '7', '12', 'abc', '+3', ' 4', '010', '0x1F', '1_000', '1e3', '3.5', an overflowing digit string, the largest and smallest 64-bit integers as strings and as numbers, number literals beyond the signed 64-bit range (value 0), names differing from assigned variables and built-ins only in letter case (unassigned: the empty string), 0, 1, 2, -1, 7, 12, true, false, and variables bound by set and by a capture) that the documented table types; plus seeded random well-typed trees of depth <= 3, each rendered with minimal AND with full parentheses (precedence and associativity) and with its keywords (true false not head tail and or) in UPPER or Capitalised case. Observation: a transform returning the expression (booleans through if/else) and a predicate returning it (match / no match). Oracle: evaluator transcribed from the documentation tables (harness/proc). Non-trivial = every expression whose observed value equalled the expected one is a distinct checked cell; distinct by expression text."
 	r.Assumptions = []string{
 		"division and modulo by zero are not generated (no documented result; see known finding K1 under C09)",
 		"left open by the documentation and always parenthesised explicitly: unary operators over binary operands, ==/!= mixed with </>/<=/>= in one chain",
@@ -220,6 +220,7 @@ func C11(r *drv.Run) {
 			e := proc.EUn{Op: op, X: a}
 			if proc.TypeOf(e, c11TypeEnv) != proc.TErr {
 				all = append(all, c11Expr{e, proc.Render(e, false), opLabel(e)})
+				all = append(all, c11Expr{e, proc.RenderCase(e, false, 1+len(all)%2), opLabel(e) + " (keyword in another case)"})
 			}
 		}
 	}
@@ -244,6 +245,9 @@ func C11(r *drv.Run) {
 					continue
 				}
 				all = append(all, c11Expr{e, proc.Render(e, false), opLabel(e)})
+				if up := proc.RenderCase(e, false, 1+len(all)%2); up != proc.Render(e, false) && (op == "and" || op == "or" || len(all)%5 == 0) {
+					all = append(all, c11Expr{e, up, opLabel(e) + " (keyword in another case)"})
+				}
 			}
 		}
 	}
@@ -267,7 +271,7 @@ func C11(r *drv.Run) {
 		pg := newProcGen(rng)
 		pg.strVar, pg.numVar, pg.boolVar = []string{"s1", "s2", "cap"}, []string{"n1", "n2"}, []string{"b1"}
 		var ex []c11Expr
-		for len(ex) < 8 {
+		for len(ex) < 6 {
 			t := []proc.Type{proc.TStr, proc.TNum, proc.TBool}[rng.Intn(3)]
 			e := pg.typed(t, 1+rng.Intn(3))
 			if proc.TypeOf(e, c11TypeEnv) == proc.TErr {
@@ -291,6 +295,9 @@ func C11(r *drv.Run) {
 			}
 			ex = append(ex, c11Expr{e, proc.Render(e, false), "tree-minimal-parens"})
 			ex = append(ex, c11Expr{e, proc.Render(e, true), "tree-full-parens"})
+			if up := proc.RenderCase(e, false, 1+i%2); up != proc.Render(e, false) {
+				ex = append(ex, c11Expr{e, up, "tree-keywords-in-another-case"})
+			}
 		}
 		src, text := c11Program(ex)
 		c := wire.Case{Op: "run", Src: []byte(src), Texts: [][]byte{[]byte(text)}, StepBudget: 200000}
